@@ -22,6 +22,7 @@ const ruleC20 = "model-based state machine with a hostile action mix: criteria r
 func c20Profile() *sm.Profile {
 	return &sm.Profile{
 		Name:        "c20",
+		FaultRate:   12,
 		Colls:       []string{"A", "B", "missing", ""},
 		IndexFields: []string{"x", "y", "n.a", "_id", "s"},
 		Doc:         gen.DocCfg{Val: gen.ValCfg{MaxDepth: 2, NonUTF8: true, Inf: true}, PAbsent: 3},
